@@ -187,8 +187,10 @@ impl<DataInterfaceType: DeduplicationDataInterface> FileDeduper<DataInterfaceTyp
                     cur_idx += n_deduped;
                     continue;
                 } else {
-                    dedup_metrics.defrag_prevented_dedup_chunks += n_deduped;
-                    dedup_metrics.defrag_prevented_dedup_bytes += fse.unpacked_segment_bytes as usize;
+                    // Only the chunk at cur_idx is stored as new data because of this decision; the rest of the
+                    // range is looked up again and may still be deduplicated.
+                    dedup_metrics.defrag_prevented_dedup_chunks += 1;
+                    dedup_metrics.defrag_prevented_dedup_bytes += chunks[cur_idx].data.len();
                 }
             }
 
